@@ -448,7 +448,19 @@ size_t varintAdaptiveEncode(uint8_t *dst, const uint64_t *values, size_t count,
      * a sampled uniqueness estimate (count > 10000) and PFOR with many
      * exceptions can need more than that, so verify their size and fall back
      * to TAGGED when they would not fit the advertised bound. */
-    if (encodingType == VARINT_ADAPTIVE_DICT && count > 10000) {
+    if (encodingType == VARINT_ADAPTIVE_BITMAP) {
+        /* BITMAP stores a set, so only a strictly increasing input survives
+         * it. stats.uniqueCount cannot be relied on for that: when
+         * varintAdaptiveCountUnique() cannot allocate its scratch copy it
+         * returns 'count' as a conservative estimate, which would let a
+         * sorted input with duplicates through. Check directly (one pass). */
+        for (size_t i = 1; i < count; i++) {
+            if (values[i] <= values[i - 1]) {
+                encodingType = VARINT_ADAPTIVE_DELTA;
+                break;
+            }
+        }
+    } else if (encodingType == VARINT_ADAPTIVE_DICT && count > 10000) {
         size_t need = varintDictEncodedSize(values, count);
         if (need == 0 || need + 1 > varintAdaptiveMaxSize(count)) {
             encodingType = VARINT_ADAPTIVE_TAGGED;
